@@ -130,7 +130,15 @@ func crashOracle(w *World, i int, op Op, obs string) *Mismatch {
 		last := writes[len(writes)-1]
 		if isRootRecord(last.Data) {
 			p := append([]byte{}, last.Data...)
-			p[20+r.Intn(len(p)-44+1)%len(p)] ^= 0x01
+			// one flipped bit where it is certain to invalidate the record: version, header length, recorded
+			// offset, trailer length or MagicEnd (a flip inside the JSON -- a letter of a name, a digit of a
+			// location -- can leave a complete, self-consistent root record, which C03's side condition excludes:
+			// the thorough tier once reported exactly that)
+			pos := 12 + r.Intn(8)
+			if r.Chance(1, 2) {
+				pos = len(p) - 24 + r.Intn(24)
+			}
+			p[pos] ^= 0x01
 			js = append(js, p)
 			js = append(js, last.Data[:len(last.Data)-1-r.Intn(11)])
 		}
